@@ -1,0 +1,89 @@
+//! Hooks for external runtime-verification harnesses.
+//!
+//! This module is only compiled when rustc is invoked with `--cfg rten_verif`.
+//! It re-exports crate-private graph and operator types, and provides an event
+//! sink and yield points which a harness can install callbacks for. Until a
+//! callback is installed, the hooks do nothing.
+
+use std::sync::OnceLock;
+
+pub use crate::buffer_pool::BufferPool;
+pub use crate::graph::{
+    CaptureEnv, Constant, ConstantNode, Dimension, Graph, Node, NodeId, OperatorNode, PlanOptions,
+    RunError,
+};
+pub use crate::infer_shapes::{InferError, InferResult, InferShapeOptions, Shape, infer_shapes};
+pub use crate::operator::{
+    InPlaceInputs, InputList, OpError, OpRunContext, Operator, OutputList, OutputMask, OutputType,
+    OutputTypeList, OutputTypesContext, PrepackedInput, SubgraphOperator,
+};
+pub use crate::timing::Profiler;
+pub use crate::weight_cache::WeightCache;
+pub use rten_shape_inference::InferShapes;
+
+/// Return the graph of a loaded model.
+pub fn model_graph(model: &crate::Model) -> &Graph {
+    model.verif_graph()
+}
+
+/// Events emitted by the graph executor.
+#[derive(Clone, Debug, PartialEq)]
+pub enum Event {
+    /// A new execution plan was created and stored in the plan cache.
+    PlanCreated { n_ops: usize, is_subgraph: bool },
+    /// The cached execution plan was re-used.
+    PlanCacheHit { is_subgraph: bool },
+    /// An operator finished running.
+    OpRun {
+        /// ID of the operator node.
+        node: u32,
+        /// Name of the operator type (eg. "Add").
+        op: String,
+        /// Positions of inputs that were passed as owned values for in-place
+        /// execution. Empty if the operator did not run in place.
+        in_place: Vec<usize>,
+        /// Number of values passed to the operator's subgraphs by value.
+        by_value_captures: usize,
+        /// True if the operator returned successfully.
+        ok: bool,
+    },
+    /// A value that is no longer needed was released to the buffer pool.
+    PoolRelease { node: u32 },
+}
+
+type EventSink = Box<dyn Fn(Event) + Send + Sync>;
+type YieldFn = Box<dyn Fn(&'static str) + Send + Sync>;
+
+static SINK: OnceLock<EventSink> = OnceLock::new();
+static YIELD: OnceLock<YieldFn> = OnceLock::new();
+
+/// Install the event sink. Returns false if a sink was already installed.
+pub fn set_event_sink(sink: EventSink) -> bool {
+    SINK.set(sink).is_ok()
+}
+
+/// Install the yield callback. Returns false if one was already installed.
+pub fn set_yield_fn(f: YieldFn) -> bool {
+    YIELD.set(f).is_ok()
+}
+
+/// Return true if an event sink is installed.
+pub fn events_enabled() -> bool {
+    SINK.get().is_some()
+}
+
+/// Send an event to the installed sink, if any.
+pub fn emit(event: Event) {
+    if let Some(sink) = SINK.get() {
+        sink(event)
+    }
+}
+
+/// Call the installed yield callback, if any.
+///
+/// Yield points are only placed between critical sections, never inside one.
+pub fn yield_point(site: &'static str) {
+    if let Some(f) = YIELD.get() {
+        f(site)
+    }
+}
